@@ -61,12 +61,14 @@ func (imp) Notify(ctx context.Context, command string) (string, error) {
 // ---- request / response helpers --------------------------------------------
 
 type reqSpec struct {
-	version int16
-	ptype   int8
-	fn      string // notify, shutdown, tars_ping, nosuch
-	cmd     string
-	timeout int32
-	id      int32
+	expectQueueTimeout bool // its own timeout elapses while it waits behind a busy worker
+	atMs               int  // send time (network scenarios)
+	version            int16
+	ptype              int8
+	fn                 string // notify, shutdown, tars_ping, nosuch
+	cmd                string
+	timeout            int32
+	id                 int32
 }
 
 func (q reqSpec) encode() []byte {
@@ -379,6 +381,9 @@ func netScenario(c netConf) *vm.Scenario {
 				}
 				for i, q := range c.reqs {
 					if i%c.conns == k {
+						if d := int64(q.atMs)*1e6 - vm.Now(); d > 0 {
+							vm.Sleep(d)
+						}
 						wr(q.encode())
 					}
 				}
@@ -481,7 +486,7 @@ func netCheck(c netConf, r *vm.Result) string {
 			}
 			continue
 		}
-		msgs = append(msgs, judge(q, gs[0].ri, served, false, over)...)
+		msgs = append(msgs, judge(q, gs[0].ri, served, q.expectQueueTimeout, over)...)
 	}
 	for id := range byID {
 		if !known[id] {
@@ -540,6 +545,19 @@ func main() {
 			add(netConf{name: "errors all versions", proto: proto, maxInvoke: pool, conns: 1, reqs: []reqSpec{
 				R(51, 3, 0, "notify", "err"), R(52, 5, 0, "notify", "err"), R(53, 3, 0, "nosuch", ""), R(54, 3, 1, "notify", "tarserr")}}, 1, false)
 		}
+	}
+	// a request whose own timeout elapses while it is queued behind a busy worker
+	for _, proto := range []string{"tcp", "udp"} {
+		late := R(62, 1, 0, "notify", "ok")
+		late.timeout, late.expectQueueTimeout = 150, true
+		intime := R(63, 1, 0, "notify", "ok")
+		intime.timeout = 2000
+		add(netConf{name: "queue-timeout behind busy worker", proto: proto, maxInvoke: 1, conns: 1, reqs: []reqSpec{
+			R(61, 1, 0, "notify", "slow600"), late, intime}}, 1, false)
+		late2 := late
+		late2.atMs = 50 // the other connection's request is being executed by then
+		add(netConf{name: "queue-timeout behind busy worker two conns", proto: proto, maxInvoke: 1, conns: 2, reqs: []reqSpec{
+			R(61, 1, 0, "notify", "slow600"), late2}}, 1, false)
 	}
 	{
 		add(netConf{name: "three pipelined", proto: "tcp", maxInvoke: 1, conns: 1, reqs: []reqSpec{
